@@ -1,6 +1,6 @@
 # replay of a solver counterexample against the real library (exit 1 = reproduces)
 import sys, warnings
-sys.path.insert(0, '/tmp/sr/C12-m3')
+sys.path.insert(0, '/tmp/sr/C12-m6')
 warnings.simplefilter('ignore')
 import numpy as np
 from svgpathtools import *
@@ -37,7 +37,7 @@ def derivF(ps, t, k):
     return complex(float(x), float(y))
 
 from svgpathtools.bezier import bezier_real_minmax, bezier_bounding_box
-a = [-19.0, -19.5, -18.0, -19.5]
+a = [0.0, 40.0, -30.0, 10.0]
 deg = len(a) - 1
 seg = bpoints2bezier([complex(x, 0.25 * x * x - x) for x in a]) if deg >= 1 else None
 xmin, xmax = seg.bbox()[:2]
@@ -46,7 +46,7 @@ from fractions import Fraction as F
 from math import comb
 def B(t):
     t = F(t); return float(sum(comb(deg, i) * (1 - t) ** (deg - i) * t ** i * F(x) for i, x in enumerate(a)))
-ts = [F(i, 4000) for i in range(4001)] + [F(0.75).limit_denominator(10**9)]
+ts = [F(i, 4000) for i in range(4001)] + [F(0.2).limit_denominator(10**9)]
 vals = [B(t) for t in ts if 0 <= t <= 1]
 if min(vals) < xmin - eps or max(vals) > xmax + eps:
     REPRODUCED('bbox x-range %r of %r does not contain the curve: x ranges over [%r, %r]' % ((xmin, xmax), seg, min(vals), max(vals)))
